@@ -148,7 +148,18 @@ func idleUntagged(state []byte) bool {
 // the given package (substring of the "created by" line) and are parked (durably or on a mutex). It is meant to be
 // called at the instant a Close/Stop call returns: a helper goroutine that is still parked inside the component
 // then has not finished, whereas one that has signalled completion and is merely on its way out is running or
-// runnable and is not counted.
+// runnable and is not counted. A goroutine that has been created but has not executed its first instruction yet
+// (runnable, program counter at the entry of its function: the frame is printed without a "+0x" offset) has not
+// finished either and is counted: a Close/Stop that waits on a counter the helper itself increments misses exactly those.
+func unstarted(state, body []byte) bool {
+	if !bytes.Equal(state, []byte("runnable")) {
+		return false
+	}
+	lines := bytes.Split(body, []byte("\n"))
+	// lines[0] "goroutine N [runnable]:", lines[1] the function, lines[2] "\tfile:line" (+0x.. once it has run)
+	return len(lines) >= 3 && bytes.HasPrefix(lines[2], []byte("\t")) && !bytes.Contains(lines[2], []byte(" +0x"))
+}
+
 func HelpersParked(createdBy string) (int, string) {
 	bp := stackBufPool.Get().(*[]byte)
 	defer stackBufPool.Put(bp)
@@ -194,7 +205,7 @@ func HelpersParked(createdBy string) (int, string) {
 			continue
 		}
 		parked := bytes.HasSuffix(x.state, []byte("(durable)")) || bytes.HasPrefix(x.state, []byte("sync.Mutex.Lock")) || bytes.HasPrefix(x.state, []byte("sync.RWMutex."))
-		if !parked {
+		if !parked && !unstarted(x.state, x.body) {
 			continue
 		}
 		if i := bytes.LastIndex(x.body, []byte("created by ")); i >= 0 && bytes.Contains(x.body[i:], []byte(createdBy)) {
